@@ -118,8 +118,8 @@ REGISTRY = {
         "trusted_base": COMMON_TRUST, "assumptions": [EXTERNAL, "gzip decompression and FASTA line joining (needletail) are exercised through the CLI only"],
     },
     "C03": {
-        "level": "proof", "modules": ["SkaModel.Props.C03", "SkaModel.Props.EndToEnd", "SkaModel.Props.C03Names"], "gen": ["C03"], "cli": [cli.c03_cli, cli.names_cli],
-        "rule": "sample names of file arguments (read_input_fastas in-process vs the model and vs the closed form of T03_name_path / T03_name_plain: directory prefixes, dots and blanks in stems, every case variant of the four extensions incl. the Unicode fold of s, line breaks, empty stems, doubled extensions, unknown extensions); in-process: sample families (1-3 contigs, isolated and non-isolated substitutions, contigs permuted / reverse-complemented per sample) through build_and_merge + align vs model and vs the joint-build table specification; CLI: repeat-free ancestors (predicate checked, resampled otherwise), isolated SNP sites at the exact boundary distances (h+1 apart, h from the ends), 2-10 samples, expected = exactly the planted columns; non-trivial = families with at least one variable site",
+        "level": "proof", "modules": ["SkaModel.Props.C03", "SkaModel.Props.EndToEnd", "SkaModel.Props.C03Names", "SkaModel.Props.C03FileList"], "gen": ["C03"], "cli": [cli.c03_cli, cli.names_cli, cli.filelist_cli],
+        "rule": "file lists (-f) and names files (get_input_list / read_name_list in-process vs the model and vs the written entries: tab / blank / Unicode white-space separators, LF and CRLF, missing final line break, padding, refused lists with a blank, one-field or four-field line anywhere); sample names of file arguments (read_input_fastas in-process vs the model and vs the closed form of T03_name_path / T03_name_plain: directory prefixes, dots and blanks in stems, every case variant of the four extensions incl. the Unicode fold of s, line breaks, empty stems, doubled extensions, unknown extensions); in-process: sample families (1-3 contigs, isolated and non-isolated substitutions, contigs permuted / reverse-complemented per sample) through build_and_merge + align vs model and vs the joint-build table specification; CLI: repeat-free ancestors (predicate checked, resampled otherwise), isolated SNP sites at the exact boundary distances (h+1 apart, h from the ends), 2-10 samples, expected = exactly the planted columns; non-trivial = families with at least one variable site",
         "trusted_base": COMMON_TRUST, "assumptions": [EXTERNAL, "RepeatFree is the executable predicate: every canonical arm key occurs at one ancestor coordinate only over all samples and is not its own reverse complement"],
     },
     "C04": {
@@ -133,7 +133,7 @@ REGISTRY = {
         "trusted_base": COMMON_TRUST, "assumptions": [EXTERNAL, "noodles-vcf text rendering is trusted"],
     },
     "C11": {
-        "level": "proof", "modules": ["SkaModel.Props.C11", "SkaModel.Props.C11Offsets", "SkaModel.Props.C18Derep", "SkaModel.Props.C17Pipe", "SkaModel.Props.C17Ref", "SkaModel.Props.C17Union"], "gen": [], "cli": [cli.c11_cli, cli.joint_reads_cli, cli.auto_mincount_cli],
+        "level": "proof", "modules": ["SkaModel.Props.C11", "SkaModel.Props.C11Offsets", "SkaModel.Props.C18Derep", "SkaModel.Props.C17Pipe", "SkaModel.Props.C17Ref", "SkaModel.Props.C17Union"], "gen": [], "cli": [cli.c11_cli, cli.joint_reads_cli, cli.auto_mincount_cli, cli.c11_scale_cli],
         "rule": "CLI matrix subcommand x input kind x threads x repetitions x sample counts on both sides of the 10-samples-per-thread rule (each process draws fresh hash seeds); non-trivial = distinct (sample count) families compared",
         "trusted_base": COMMON_TRUST, "assumptions": [EXTERNAL, "actual rayon scheduling and DashMap interleavings are sampled by the matrix, not proved"],
     },
@@ -148,7 +148,7 @@ REGISTRY = {
         "trusted_base": COMMON_TRUST, "assumptions": [EXTERNAL],
     },
     "C08": {
-        "level": "proof", "modules": ["SkaModel.Props.C08", "SkaModel.Props.EndToEnd"], "gen": ["C08", "C10"], "cli": [cli.make_hist_cli("C08", 40, 400), cli.c08_big_cli],
+        "level": "proof", "modules": ["SkaModel.Props.C08", "SkaModel.Props.EndToEnd"], "gen": ["C08", "C10"], "cli": [cli.make_hist_cli("C08", 40, 400), cli.c08_big_cli, cli.c08_names_cli],
         "rule": "tables of 2-8 samples; delete sets: first, last, adjacent block, alternating, random subset, shuffled order, all (refused), unknown (refused), partly unknown (refused), none (refused); non-trivial = accepted deletions",
         "trusted_base": COMMON_TRUST, "assumptions": [EXTERNAL],
     },
@@ -191,7 +191,7 @@ REGISTRY = {
         "trusted_base": COMMON_TRUST, "assumptions": [EXTERNAL],
     },
     "C13": {
-        "level": "proof", "modules": ["SkaModel.Props.C13", "SkaModel.Props.EndToEnd"], "gen": ["C13"], "cli": [cli.make_hist_cli("C13", 40, 400), cli.freq_sweep_cli],
+        "level": "proof", "modules": ["SkaModel.Props.C13", "SkaModel.Props.EndToEnd"], "gen": ["C13"], "cli": [cli.make_hist_cli("C13", 40, 400), cli.freq_sweep_cli, cli.c13_iupac_cli],
         "rule": "tables x weed record sets that hit a random subset of rows on either strand (with N, noise, several records), forward, reverse and twice; non-trivial = distinct case lines where weeding removed or kept at least one k-mer",
         "trusted_base": COMMON_TRUST, "assumptions": [EXTERNAL],
     },
